@@ -10,7 +10,8 @@
     (`Generated.ruleRows`: the unit label each handler of the live unyt/_array_functions.py attaches,
     as exponent expressions in the shapes) the label IS the hand-written homogeneity degree
     (`Ref.expected`), symbolically in the shapes — except the literal exclusion list `Ref.exclC07`,
-    every entry of which is witnessed (`exclusions_are_real`) and refuted concretely below.
+    every entry of which is witnessed (`exclusions_are_real`) and refuted concretely below
+    (`np.linalg.det` and `np.einsum`, repaired by `fix:` commits, are now positive statements).
   * `same_sound` / `sizeRatio_eq_reduced` (Lemmas/C07): the symbolic comparison is sound for all
     shapes; `a.size // res.size` is the number of factors of a product over any axes.
   * P-tab `dimensional_results_keep_units` (UnytProofs/C07Lists.lean): every function on the hand-written list of
@@ -180,31 +181,24 @@ theorem C07_counterexample : ¬ C07_full := by
 
 /-! ### the excluded rows, refuted concretely -/
 
-/-- `np.linalg.det`: the regenerated rule is `a.units ** a.shape[0]` … -/
-theorem det_rule_is_shape0 :
+/-- `np.linalg.det` (after the fix: `a.units ** a.shape[-1]`): the regenerated rule is the matrix order,
+    for single matrices and for stacks of any depth alike -/
+theorem det_rule_is_matrix_order :
     (Generated.ruleRows.all fun r => r.func != "numpy.linalg.det" || r.raised ||
-      r.leaves == [⟨true, r.leaves.head!.cls, [("0", Expo.dim "a" 0)]⟩]) = true := by decide +kernel
+      (r.leaves.all fun l => l.carries && l.expo == [("0", Expo.dim "a" (-1))])) = true := by decide +kernel
 
-/-- … which is the matrix order for a single matrix (for every n) … -/
-theorem det_rule_ok_for_single_matrix (n : Nat) (sz : Nat) :
-    let env : Env := ⟨fun _ => some [n, n], sz, fun _ => none, fun _ => 0⟩
-    (Expo.dim "a" 0).eval env = (Expo.dim "a" (-1)).eval env := by
-  simp [Expo.eval, pyIndex, Shape.normAxis]
-
-/-- … and the stack size, not the matrix order, for a stack of matrices: on a (2, 3, 3) stack the
-    handler attaches `units**2` to determinants of degree 3 -/
-theorem det_counterexample :
+/-- … e.g. units**3 for a (2, 3, 3) stack, where the stack size is 2 -/
+example :
     let env : Env := ⟨fun _ => some [2, 3, 3], 2, fun _ => none, fun _ => 0⟩
-    (Expo.dim "a" 0).eval env = some 2 ∧ (Expo.dim "a" (-1)).eval env = some 3 := by
+    (Expo.dim "a" (-1)).eval env = some 3 ∧ (Expo.dim "a" 0).eval env = some 2 := by
   decide +kernel
 
-/-- `np.einsum('i,i', x, x)`: two operands, the reference degree is 2, the regenerated label has exponent 1 -/
-theorem einsum_counterexample :
-    (Generated.ruleRows.any fun r => r.func == "numpy.einsum" && r.variant == "inner" && !r.raised
-      && r.leaves.all (fun l => l.expo == [("0", Expo.const 1)])
-      && (match Ref.expected r.callForm with
-          | .leaves [.units [(role, e)]] => role == "*operands" && e.spec r.count == Expo.const 2
-          | _ => false)) = true := by decide +kernel
+/-- `np.einsum` (after the fix: product of the operand units): one degree per operand in every row -/
+theorem einsum_rule_is_operand_count :
+    (Generated.ruleRows.all fun r => r.func != "numpy.einsum" || r.raised || rowDefects r == []) = true
+    ∧ (Generated.ruleRows.any fun r => r.func == "numpy.einsum" && r.variant == "inner" && !r.raised
+        && r.leaves.all (fun l => l.expo == [("0", Expo.const 2)])) = true := by
+  decide +kernel
 
 /-- `np.linalg.lstsq`: the residuals (second leaf) are labelled `b/a`, their degree is `b²` -/
 theorem lstsq_counterexample :
